@@ -119,7 +119,7 @@ def netting(R, rep):
         rep.unresolved("R3", "TOTALS", f"{len(tot)} calculator functions return (Decimal, Decimal)")
         return
     b = tot[0]
-    tb = Terms(F, b, inline_depth=0)
+    tb = Terms(F, b, inline_depth=1)
     adds = []
     for i, t in b.calls():
         if is_decimal_arith_assign(t["callee"]) == "AddAssign":
@@ -142,6 +142,11 @@ def netting(R, rep):
         for cond, val, s in guards_of(b, tb, a[0][0]):
             if isinstance(cond, tuple) and cond[0] == "cmp" and cond[1] == want_op and cond[3] == ZERO and truth(val) and is_leg_sum(cond[2]):
                 ok = True
+            # `match net.cmp(&ZERO) { Greater => …, Less => … }`
+            if isinstance(cond, tuple) and cond[0] == "discr" and isinstance(cond[1], tuple) and cond[1][0] == "call" \
+                    and cond[1][1].endswith("core::cmp::Ord>::cmp") and cond[1][2][1] == ZERO and is_leg_sum(cond[1][2][0]) \
+                    and str(val) == ("1" if want_op == "Gt" else "-1"):
+                ok = True
         rep.ob("R3", f"totals:{nm}-sign-test-on-disposal-net", ok, f"the {nm} branch tests the sign of the disposal's net result" if ok else
                f"the {nm} accumulation is not guarded by `net {want_op} 0` on the per-disposal sum", b.loc(a[0][3]["sp"]), key=f"R3:totals:{nm}-guard")
     # gain and loss go to different accumulators and are returned in (gain, loss) order
@@ -161,6 +166,14 @@ def netting(R, rep):
                 f = {n: stb.operand(o) for n, o in zip(rv["fields"], rv["ops"])}
                 ok = f["net_gain"] == mk_add([f["total_gain"], mk_neg(f["total_loss"])])
                 src = any(isinstance(x, tuple) and x and x[0] == "call" and x[1] == b.id for x in subterms(f["total_gain"]))
+                g, l = f["total_gain"], f["total_loss"]
+                if not src and isinstance(g, tuple) and isinstance(l, tuple) and g[0] == "field" and l[0] == "field" and g[1] == l[1] \
+                        and (g[2], l[2]) == ("0", "1") and isinstance(g[1], tuple) and g[1][0] == "param":
+                    # the (gain, loss) pair arrives as a parameter: every caller must pass the totals function's result
+                    sites = list(F.call_sites(lambda cal, sid=sb.id: cal == sid))
+                    src = bool(sites) and all(
+                        (lambda a: isinstance(a, tuple) and a and a[0] == "call" and a[1] == b.id)(Terms(F, cb2, inline_depth=0).operand(ct2["args"][g[1][1]]))
+                        for cb2, ci2, ct2 in sites)
                 rep.ob("R3", f"{sb.short}:net=gain−loss", ok and src, "net_gain = total_gain − total_loss of the per-disposal totals" if ok and src else
                        f"net_gain is {show(f['net_gain'])[:60]} (totals from calculate_totals: {src})", sb.loc(s["sp"]), key=f"R3:{sb.short}:net-gain")
 
@@ -303,8 +316,25 @@ def exemption(R, rep):
         rep.ob("R7", f"{b.short}:exemption-propagates", ok, "a missing exemption year is propagated with `?`" if ok else
                f"the exemption lookup result is consumed by {users}: an unconfigured year could be treated as 0", b.loc(t["sp"]),
                key=f"R7:{b.short}:exemption-default")
-    if n < 2:
+    if n < 1:
         rep.unresolved("R7", "exemption-callers", f"{n} callers of Config::get_exemption")
+    # every tax-year summary takes its exemption from that lookup for the summary's own period
+    m = 0
+    for sb in F.bodies.values():
+        if sb.crate != "cgt_core" or not P.user_written(F, sb):
+            continue
+        for i, si, s in sb.assigns():
+            rv = s["rv"]
+            if rv["k"] == "agg" and rv["adt"].endswith("models::TaxYearSummary"):
+                m += 1
+                stb = Terms(F, sb, inline_depth=0)
+                f = {nm: stb.operand(o) for nm, o in zip(rv["fields"], rv["ops"])}
+                calls = [x for x in subterms(f["exempt_amount"]) if isinstance(x, tuple) and x and x[0] == "call" and x[1].endswith("Config::get_exemption")]
+                ok = len(calls) == 1
+                rep.ob("R7", f"{sb.short}:summary-exemption-from-config", ok, "the summary's exempt_amount is the configuration lookup's result" if ok else
+                       f"exempt_amount is {show(f['exempt_amount'])[:70]}", sb.loc(s["sp"]), key=f"R7:{sb.short}:exemption-source")
+    if m < 1:
+        rep.unresolved("R7", "summary-builders", "no construction of TaxYearSummary found")
     for b in F.bodies.values():
         if b.id.endswith("Config::get_exemption"):
             tb = Terms(F, b, inline_depth=0)
